@@ -164,12 +164,25 @@ static hwloc_topology_t load_as(char kind, char mode, const char *arg, const cha
   return t;
 }
 static unsigned count_objs(hwloc_topology_t t) { struct dump_map m = {0}; unsigned budget = 2000000; dump_collect(&m, hwloc_get_root_obj(t), &budget); free(m.objs); return m.n; }
-static int load_topology(char kind, char mode, const char *arg) {
+static char cur_restrict[1024];       /* argument of --restrict ("" = none) */
+/* what hwloc-calc / hwloc-distrib do with `--restrict <arg>` after the load: the library calls, failures ignored */
+static void apply_restrict(hwloc_topology_t t, char mode, const char *arg) {
+  unsigned long flags = 0; const char *str = arg;
+  /* hwloc-calc compares 7 characters of "nodeset=" and skips 8, hwloc-distrib compares 8 */
+  if (!strncmp(arg, "nodeset=", mode == 'A' ? 7 : 8)) { str = strlen(arg) >= 8 ? arg + 8 : ""; flags |= HWLOC_RESTRICT_FLAG_BYNODESET; }
+  hwloc_bitmap_t set = hwloc_bitmap_alloc();
+  hwloc_bitmap_sscanf(set, str);
+  hwloc_topology_restrict(t, set, flags);
+  hwloc_bitmap_free(set);
+}
+static int load_topology(char kind, char mode, const char *restr, const char *arg) {
   unload();
   topo = load_as(kind, mode, arg, NULL, 0);
   if (!topo) return -1;
+  if (restr && *restr) { if (mode != 'A' && mode != 'D') { unload(); return -1; } apply_restrict(topo, mode, restr); }
   if (count_objs(topo) > 700) { unload(); return -1; }
   cur_kind = kind; cur_mode = mode; snprintf(cur_input, sizeof cur_input, "%s", arg);
+  snprintf(cur_restrict, sizeof cur_restrict, "%s", restr ? restr : "");
   return 0;
 }
 static char *dump_string(hwloc_topology_t t) {
@@ -185,6 +198,7 @@ static void a_free(struct args *a) { for (int i = 0; i < a->n; i++) free(a->v[i]
 static void a_input(struct args *a, const char *tool, int explicit_if) {
   a_add(a, tool); a_add(a, "-i"); a_add(a, cur_input);
   if (explicit_if) { a_add(a, "--if"); a_add(a, cur_kind == 'S' ? "synthetic" : "xml"); }
+  if (cur_restrict[0]) { a_add(a, "--restrict"); a_add(a, cur_restrict); }
 }
 
 /* ------------------------------------------------------------------ op execution */
@@ -453,10 +467,15 @@ static void op_badargs(int nt, char **t) {
 static void out_c(const char *s) { fputs(s, fc); fputc('\n', fc); fflush(fc); }
 
 static void do_load_line(const char *line) {
-  char kind, mode; int pos = 0;
+  /* LOAD <S|X> <mode>[:<escaped --restrict argument>] <input> */
+  char kind, modetok[1100]; int pos = 0;
   fprintf(fmin, "%s\n", line); fflush(fmin);
-  if (sscanf(line, "LOAD %c %c %n", &kind, &mode, &pos) < 2 || !pos) { out_c("bad-load"); return; }
-  if (load_topology(kind, mode, line + pos) < 0) { out_c("LOADFAIL"); return; }
+  if (sscanf(line, "LOAD %c %1099s %n", &kind, modetok, &pos) < 2 || !pos) { out_c("bad-load"); return; }
+  char mode = modetok[0]; char *restr = NULL;
+  if (modetok[1] == ':') restr = unesc(modetok + 2, NULL); else if (modetok[1]) { out_c("bad-load"); return; }
+  int lerr = load_topology(kind, mode, restr, line + pos);
+  free(restr);
+  if (lerr < 0) { out_c("LOADFAIL"); return; }
   out_c(".");
   unsigned lines = dump_topology(fmin, topo, "t");
   fflush(fmin);
@@ -530,18 +549,28 @@ static void read_xml_list(void) {
   fclose(f);
 }
 /* loads a fresh topology in `mode`; emits the LOAD line; returns 0 on success */
+/* a --restrict argument for the loaded topology: a sub-cpuset, `nodeset=` a sub-nodeset, or something the library refuses */
+static void gen_restrict(char *out, size_t cap) {
+  char buf[512];
+  int bynode = rng_chance(30);
+  hwloc_const_bitmap_t whole = bynode ? hwloc_topology_get_topology_nodeset(topo) : hwloc_topology_get_topology_cpuset(topo);
+  hwloc_bitmap_t b = hwloc_bitmap_alloc(); int i;
+  hwloc_bitmap_foreach_begin(i, whole) { if (rng_chance(60)) hwloc_bitmap_set(b, i); } hwloc_bitmap_foreach_end();
+  if (rng_chance(8)) hwloc_bitmap_zero(b);                    /* refused: EINVAL, the tool goes on unrestricted */
+  if (rng_chance(8)) hwloc_bitmap_set(b, hwloc_bitmap_last(whole) + 3);
+  hwloc_bitmap_snprintf(buf, sizeof buf, b); hwloc_bitmap_free(b);
+  snprintf(out, cap, "%s%s", bynode ? (rng_chance(10) ? "nodesetX" : "nodeset=") : "", buf);
+}
 static int gen_load(char mode, int want_xml) {
-  char line[8192];
+  char line[8192], restr[600] = "", mt[2048];
   for (int tries = 0; tries < 20; tries++) {
-    if (want_xml && nxml) {
-      const char *x = xml_list[rng_below(nxml)];
-      if (load_topology('X', mode, x) < 0) continue;
-      snprintf(line, sizeof line, "LOAD X %c %s", mode, x);
-    } else {
-      char syn[2048]; gen_synthetic(syn, sizeof syn);
-      if (load_topology('S', mode, syn) < 0) continue;
-      snprintf(line, sizeof line, "LOAD S %c %s", mode, syn);
-    }
+    char kind = (want_xml && nxml) ? 'X' : 'S'; char syn[2048]; const char *input;
+    if (kind == 'X') input = xml_list[rng_below(nxml)]; else { gen_synthetic(syn, sizeof syn); input = syn; }
+    if (load_topology(kind, mode, NULL, input) < 0) continue;
+    restr[0] = 0;
+    if ((mode == 'A' || mode == 'D') && rng_chance(15)) { gen_restrict(restr, sizeof restr); if (load_topology(kind, mode, restr, input) < 0) continue; }
+    if (restr[0]) { char *e = esc(restr, strlen(restr)); snprintf(mt, sizeof mt, "%c:%s", mode, e); free(e); } else snprintf(mt, sizeof mt, "%c", mode);
+    snprintf(line, sizeof line, "LOAD %c %s %s", kind, mt, input);
     unload();       /* emit_line loads it again (same path as replay) */
     emit_line(line);
     return topo ? 0 : -1;
@@ -566,19 +595,23 @@ static void gen_type(char *out, size_t cap, int normal_only) {
   else if (k < 75) snprintf(out, cap, "%u", rng_below(td + 1));
   else if (k < 80) { static const char *n[] = {"pu", "core", "package", "machine", "l2", "l1i", "l3", "group", "die", "Group0", "L2Cache", "l1d"}; snprintf(out, cap, "%s", n[rng_below(12)]); }
   else if (k < 92 && !normal_only) { static const char *n[] = {"pci", "os", "misc", "bridge", "hostbridge", "pcibridge", "osdev", "gpu", "net", "block", "memcache", "hbm", "mcdram", "storage", "PCIDev", "OSDev"}; snprintf(out, cap, "%s", n[rng_below(16)]); }
-  else { static const char *n[] = {"zzz", "cor", "p", "l9", "4294967295", "4294967293", "0x1", "+1", "pu[", "os[gpu]", "numa[tier=0]", "averyveryverylongtypename", "numa[hbm]", "pci[10de:]", "-1", "core0"}; snprintf(out, cap, "%s", n[rng_below(16)]); }
+  else { static const char *n[] = {"zzz", "cor", "p", "l9", "4294967295", "4294967293", "0x1", "+1", "pu[", "os[gpu]", "numa[tier=0]", "averyveryverylongtypename", "numa[hbm]", "pci[10de:]", "-1", "core0",
+      "numa[tier=1]", "numa[subtype=MCDRAM]", "numa[mcdram]", "numa[DRAM]", "pci[:]", "pci[8086:]", "pci[:1521]", "pci[8086:1521]", "pci[1000]", "pci[x:y]", "os[net]", "os[foo]", "gpu[x]",
+      "pci[0x8086:]", "misc[subtype=x]", "core[foo]", "pu[tier=2]", "numa[tier=]", "pci[ffffffff:]", "os[subtype=OpenCL]"}; snprintf(out, cap, "%s", n[rng_below(36)]); }
 }
-/* ranges that cannot trigger the known defect classes F40 (huge loop) / F41 (assert): see risky() */
 static void gen_range(char *out, size_t cap, int top) {
   unsigned k = rng_below(100), a = rng_below(rng_chance(80) ? 4 : 12), b = rng_below(6);
-  if (k < 35) snprintf(out, cap, "%u", a);
-  else if (k < 55) snprintf(out, cap, "%u-%u", a, a + b);
-  else if (k < 63) snprintf(out, cap, "%u-", top ? rng_below(2) : 0);
-  else if (k < 78) snprintf(out, cap, "%u:%u", a, rng_below(7));
+  (void) top;
+  if (k < 33) snprintf(out, cap, "%u", a);
+  else if (k < 50) snprintf(out, cap, "%u-%u", a, a + b);
+  else if (k < 55) snprintf(out, cap, "%u-%u", a + b, a);             /* reversed (or single) */
+  else if (k < 63) snprintf(out, cap, "%u-", a);                       /* open, possibly beyond the width */
+  else if (k < 76) snprintf(out, cap, "%u:%u", a, rng_below(7));       /* width 0 is invalid */
+  else if (k < 78) snprintf(out, cap, "%u:-%u", a, rng_below(3));      /* negative width */
   else if (k < 86) snprintf(out, cap, "all");
   else if (k < 91) snprintf(out, cap, "odd");
   else if (k < 96) snprintf(out, cap, "even");
-  else { static const char *n[] = {"", "x", "1-2-3", "1:", "1,2", "allx", "oddity", "evening", "1-+2", "00", "01-02", "2:+1", "0x1", "1 ", "99999", "1-x"}; snprintf(out, cap, "%s", n[rng_below(16)]); }
+  else { static const char *n[] = {"", "x", "1-2-3", "1:", "1,2", "allx", "oddity", "evening", "1-+2", "00", "01-02", "2:+1", "0x1", "1 ", "99999", "1-x", "3--1", "2:0", "0:-1", "7-"}; snprintf(out, cap, "%s", n[rng_below(20)]); }
 }
 static void gen_rawset(char *out, size_t cap, int *fmt /* 0 hwloc 1 list 2 taskset */) {
   unsigned nb = 0; hwloc_const_bitmap_t cc = hwloc_topology_get_complete_cpuset(topo);
@@ -603,50 +636,21 @@ static void gen_location(char *out, size_t cap) {
     hwloc_obj_t o = NULL; const char *ty = "os";
     if (rng_chance(50)) { unsigned n = hwloc_get_nbobjs_by_type(topo, HWLOC_OBJ_OS_DEVICE); if (n) o = hwloc_get_obj_by_type(topo, HWLOC_OBJ_OS_DEVICE, rng_below(n)); }
     else { ty = "misc"; unsigned n = hwloc_get_nbobjs_by_type(topo, HWLOC_OBJ_MISC); if (n) o = hwloc_get_obj_by_type(topo, HWLOC_OBJ_MISC, rng_below(n)); }
-    if (rng_chance(10)) { ty = "pci"; o = NULL; }
-    app(out, off, (int) cap, "%s=%s", ty, o && o->name && !strchr(o->name, ' ') ? o->name : (rng_chance(50) ? "nosuchname" : "0000:00:02.0")); return;
+    if (rng_chance(30)) {
+      unsigned n = hwloc_get_nbobjs_by_type(topo, HWLOC_OBJ_PCI_DEVICE); char b[64] = "0000:00:02.0";
+      if (n && rng_chance(85)) { hwloc_obj_t pd = hwloc_get_obj_by_type(topo, HWLOC_OBJ_PCI_DEVICE, rng_below(n));
+        if (rng_chance(60) || pd->attr->pcidev.domain) snprintf(b, sizeof b, "%04x:%02x:%02x.%01x", pd->attr->pcidev.domain, pd->attr->pcidev.bus, pd->attr->pcidev.dev, pd->attr->pcidev.func);
+        else snprintf(b, sizeof b, "%x:%x.%x", pd->attr->pcidev.bus, pd->attr->pcidev.dev, pd->attr->pcidev.func); }
+      else if (rng_chance(50)) { static const char *bad[] = {"00:02", "zz:00.0", "0000:00:02", "1:2:3.4.5", "0:0.0x", ":00.0", "0000:00:02.0junk", "ff:1f.7"}; snprintf(b, sizeof b, "%s", bad[rng_below(8)]); }
+      app(out, off, (int) cap, "pci=%s", b); return;
+    }
+    app(out, off, (int) cap, "%s=%s", ty, o && o->name && !strchr(o->name, ' ') ? o->name : "nosuchname"); return;
   }
   char ty[64], rg[64];
   unsigned depthn = 1 + (rng_chance(40) ? 1 + rng_below(2) : 0);
   for (unsigned i = 0; i < depthn; i++) {
     gen_type(ty, sizeof ty, i > 0 && rng_chance(80)); gen_range(rg, sizeof rg, i == 0 && strncasecmp(ty, "hbm", 3) && strncasecmp(ty, "mcdram", 6) && !strchr(ty, '['));
     off = app(out, off, (int) cap, "%s%s%s%s", i ? "." : "", ty, rng_chance(3) ? "=" : ":", rg);
-  }
-}
-/* syntactic guard: does a location argument belong to the excluded classes F40 / F41 (or to the slow-but-finite ones)?
- * (reversed range N-M with M < N, negative suffix, N- with N > 1 or below a dot or on a filtered level, N:M with M > 64) */
-static int risky_loc(const char *arg) {
-  const char *p = arg;
-  if (*p == '~' || *p == 'x' || *p == '^') p++;
-  size_t tl = strcspn(p, ":=.[");
-  if (p[tl] == '[') { const char *e = strchr(p + tl, ']'); if (!e) return 0; tl = (size_t) (e + 1 - p); }
-  if (!tl || (p[tl] != ':' && p[tl] != '=')) return 0;
-  int seg = 0;
-  const char *type = p;
-  const char *r = p + tl + 1;
-  for (;;) {
-    int filtered = !strncasecmp(type, "hbm", 3) || !strncasecmp(type, "mcdram", 6) || memchr(type, '[', (size_t) (r - type)) != NULL;
-    /* r: range text up to '.' or end */
-    size_t rl = strcspn(r, ".");
-    if (rl && isdigit((unsigned char) r[0])) {
-      char *e; long n = strtol(r, &e, 10);
-      if (n > 100000) return 1;
-      if (*e == '-' && e < r + rl) {
-        const char *s = e + 1;
-        if (s == r + rl) { if (n > 1 || (n == 1 && (seg > 0 || filtered))) return 1; }
-        else { if (*s == '-' || isspace((unsigned char) *s)) return 1; char *e2; long m = strtol(s, &e2, 10); if (e2 != s && m < n) return 1; if (m - n > 4000) return 1; }
-      } else if (*e == ':' && e < r + rl) {
-        const char *s = e + 1;
-        if (*s == '-' || isspace((unsigned char) *s)) return 1;
-        char *e2; long m = strtol(s, &e2, 10); if (m > 64) return 1;
-      }
-    }
-    if (r[rl] != '.') return 0;
-    type = r + rl + 1;
-    size_t tl2 = strcspn(type, ":=.[");
-    if (type[tl2] == '[') { const char *e = strchr(type + tl2, ']'); if (!e) return 0; tl2 = (size_t) (e + 1 - type); }
-    if (type[tl2] != ':') return 0;
-    r = type + tl2 + 1; seg++;
   }
 }
 static void gen_out_level(char *out, size_t cap) {
@@ -678,7 +682,7 @@ static void gen_calc_args(struct args *a, int *has_v) {
       else { static const char *bad[] = {"--foo", "-x", "--cof", "-N", "--sep", "--disallowed", "--cif", "-", "--", "--Largest", "-I", "-H"}; a_add(a, bad[rng_below(12)]); }
     } else {
       nloc--;
-      do gen_location(buf, sizeof buf); while (risky_loc(buf));
+      gen_location(buf, sizeof buf);
       a_add(a, buf);
     }
   }
@@ -704,7 +708,7 @@ static void gen_calc(void) {
     unsigned nl = rng_below(4);
     for (unsigned l = 0; l < nl; l++) {
       unsigned nt = rng_below(4);
-      for (unsigned k = 0; k < nt; k++) { char loc[2048]; do gen_location(loc, sizeof loc); while (risky_loc(loc)); if (strlen(loc) < 300) ioff = app(in, ioff, sizeof in, "%s%s", k ? " " : "", loc); }
+      for (unsigned k = 0; k < nt; k++) { char loc[2048]; gen_location(loc, sizeof loc); if (strlen(loc) < 300) ioff = app(in, ioff, sizeof in, "%s%s", k ? " " : "", loc); }
       if (l + 1 < nl || rng_chance(80)) ioff = app(in, ioff, sizeof in, "\n");
     }
   }
@@ -717,7 +721,7 @@ static void gen_lrt(void) {
   unsigned nloc = 1 + rng_below(3);
   /* logical indexes only: physical indexes are not unique across packages and absent (-1) on caches and groups, so the output of
    * `-p --largest` is not a location list in general (a documented limitation of physical indexes, not part of the property) */
-  for (unsigned i = 0; i < nloc; i++) { do gen_location(buf, sizeof buf); while (risky_loc(buf)); a_add(&a, buf); }
+  for (unsigned i = 0; i < nloc; i++) { gen_location(buf, sizeof buf); a_add(&a, buf); }
   int off = app(line, 0, sizeof line, "LRT");
   emit_args(line, off, sizeof line, &a); a_free(&a);
 }
@@ -726,7 +730,7 @@ static void gen_ni(void) {
   gen_type(buf, sizeof buf, rng_chance(60)); a_add(&a, buf);
   if (rng_chance(20)) a_add(&a, "-p");
   unsigned nloc = 1 + rng_below(3);
-  for (unsigned i = 0; i < nloc; i++) { do gen_location(buf, sizeof buf); while (risky_loc(buf)); a_add(&a, buf); }
+  for (unsigned i = 0; i < nloc; i++) { gen_location(buf, sizeof buf); a_add(&a, buf); }
   int off = app(line, 0, sizeof line, "NI");
   emit_args(line, off, sizeof line, &a); a_free(&a);
 }
